@@ -276,7 +276,11 @@ class Mod(object):
             elif mk == 'async':
                 self.emit_func(mind, mn, cn, is_async=True)
             elif mk == 'wrapped':
-                self.emit_func(mind, mn, cn, decos=('deco',))
+                if getattr(self, 'helper', False) and D.bool():
+                    self.emit_func(mind, mn, cn, decos=('helper_deco',))
+                    self.features.add('decorator_from_other_module')
+                else:
+                    self.emit_func(mind, mn, cn, decos=('deco',))
             elif mk == 'dunder':
                 mn = '__vp{}__'.format(j)
                 self.emit_func(mind, mn, '{}.{}'.format(name, mn))
@@ -318,6 +322,19 @@ class Mod(object):
 HELPER = 'VPHELPERMOD'      # placeholder for the name of a sibling module (replaced when the case is written to disk)
 
 HELPER_SOURCE = '''
+import functools
+
+
+def helper_deco(fn):
+    """
+    >>> print('helper_deco must not be collected')
+    """
+    @functools.wraps(fn)
+    def wrapper(*a, **k):
+        return fn(*a, **k)
+    return wrapper
+
+
 def imported_fn(x=1):
     """
     Example:
@@ -358,7 +375,9 @@ def build_module(D, importable=True, fail_kinds=(None,), max_items=7, allow_asyn
         m.add('import {}'.format(HELPER))
         m.add('from {} import imported_fn, ImportedCls'.format(HELPER))
         m.add('from {} import imported_fn as renamed_fn'.format(HELPER))
-        m.mustnot += ['imported_fn', 'ImportedCls', 'ImportedCls.meth', 'ImportedCls.smeth', 'renamed_fn']
+        m.add('from {} import helper_deco'.format(HELPER))
+        m.add('import contextlib')
+        m.mustnot += ['imported_fn', 'ImportedCls', 'ImportedCls.meth', 'ImportedCls.smeth', 'renamed_fn', 'helper_deco']
         m.features.add('imported_names_with_doctests')
     m.add('')
     m.add('')
@@ -379,6 +398,8 @@ def build_module(D, importable=True, fail_kinds=(None,), max_items=7, allow_asyn
         kind = D.choice(kinds_pool)
         if kind in ('async', 'asyncdeco') and not allow_async:
             kind = 'def'
+        if helper and kind in ('deco', 'deco2') and D.chance(1, 2):
+            kind = D.choice(['extdeco', 'ctxmgr'])
         name = 'item{}'.format(i)
         if kind == 'def':
             m.emit_func('', name, name)
@@ -386,6 +407,13 @@ def build_module(D, importable=True, fail_kinds=(None,), max_items=7, allow_asyn
             m.emit_func('', name, name, is_async=True)
         elif kind == 'deco':
             m.emit_func('', name, name, decos=('deco',))
+        elif kind == 'extdeco':
+            # a functools.wraps decorator that lives in another module
+            m.emit_func('', name, name, decos=('helper_deco',))
+            m.features.add('decorator_from_other_module')
+        elif kind == 'ctxmgr':
+            m.emit_func('', name, name, decos=('contextlib.contextmanager',))
+            m.features.add('decorator_from_other_module')
         elif kind == 'deco2':
             m.emit_func('', name, name, decos=('deco', 'deco'))
             m.features.add('decorator_list')
